@@ -124,8 +124,8 @@ PROPS["C04"] = {
 
 PROPS["C06"] = {
     "title": "Bounding boxes contain the curve and are tight",
-    "gen_modules": ["Basis", "CurveBounds"],
-    "props_modules": ["C06", "C06Path"],
+    "gen_modules": ["Basis", "CurveBounds", "PathBounds2"],
+    "props_modules": ["C06", "C06Path", "C06Path2"],
     "corr_n": (20000, 200000),
     "search_n": (10000, 200000),
     "technique": "Lean 4 theorems over ℝ (compactness + Fermat, quadratic formula) about definitions translated from bounds.rs / curve.rs / coord1.rs / bounding_box.rs on every run + bit-exact Float mirror",
@@ -134,7 +134,7 @@ PROPS["C06"] = {
                   "(hence it is exactly the min/max of the curve); the derivative coefficients are the derivative; fast_bounding_box is the min/max of the control values and contains both the curve and "
                   "the tight box; union_bounds is characterised incl. its skipping of min=max boxes. The Float instance of the same generated definitions reproduces the implementation bit for bit per axis in 1-D/2-D/3-D. "
                   "Path level (Props/C06Path): path_bounding_box / path_fast_bounding_box are translated (map, reduce, origin box for a path without curves) and proved to contain every point of every curve "
-                  "of the path whose own box has positive width, for any number of curves (induction over the reduce); bit-exact against 1-D paths (the generic code at Point = f64).",
+                  "of the path whose own box has positive width, for any number of curves (induction over the reduce); bit-exact against 1-D paths (the generic code at Point = f64). 2-D paths (Props/C06Path2): union_bounds, is_empty, from_smallest/biggest_components and the two path functions are regenerated at Point = Coord2 (the per-curve box is a parameter); in 2-D a box is empty only when its corners are THE SAME POINT, so vertical and horizontal lines take part in the union: path_bounding_box2_contains / path_fast_bounding_box2_contains - for any number of curves, the box of every curve that is not a single point lies inside the path's box in both coordinates (foldl_union2_contains, union_bounds2_spec); bit-exact against real 2-D paths with point sections and axis-parallel lines (op pbox2: the real per-curve boxes are folded by the generated union).",
     "level_note": "Partial: the ill-conditioned quadratic formula in binary64 (leading coefficient 1e-17..1e-8) is covered by the bit-exact mirror and the search (1/2000 grid + refined extrema, tolerance 1e-9 of "
                   "the polygon size with a 16-ulp floor), not by a theorem; 2-D/3-D boxes are per-axis in exact arithmetic (the implementation shares candidates between axes, which only adds curve points); "
                   "a curve that is constant in a coordinate has a min=max box there, which union_bounds skips (the code's notion of 'empty'): the path theorems say so explicitly; for 2-D paths emptiness is decided on the whole box, "
